@@ -125,7 +125,7 @@ def run(ctx, rep):
         for bb, t in b.calls():
             if "callee" in t and re.search(r"core::slice::<impl \[T\]>::binary_search(_by_key|_by)?$", callee(t)):
                 searches.append((b, bb, t))
-    rep.floor("C17.a", "binary search sites", len(searches), 3)
+    rep.floor("C17.a", "binary search sites", len(searches), 2)
     search_keys = set()
     for (b, bb, t) in searches:
         elem = (t.get("gargs") or [""])[0]
